@@ -272,3 +272,57 @@ _upd("C02", "note", "harness tools/props/c02.py + tools/vlib/scen.py; float64 ex
      "in place with &=, and the ESN convenience node as a two-node model); float64 exact on small dyadic data.")
 _upd("C08", "note", "Hidden memory is mirrored, not repaired.",
      "Hidden memory is mirrored, not repaired. Histories include the ESN convenience node (run on copies, states carried back) and runs over a list of sequences.")
+
+
+# ---- session 3 (2026-09-29/30): new translator ties, Q-to-R bridge, data plumbing, unbounded staging theorems ---------------------
+def _app(pid, field, more):
+    CHECKS[pid][field] = CHECKS[pid][field] + more
+
+
+_app("C02", "text", " The data plumbing around the model (utils/model_utils.py and Model.run's loop over sequences) is modelled and proved as well (coq/model/Mapping.v): arrays / lists reach exactly the "
+     "entry nodes and name-keyed mappings exactly the named nodes, sequence by sequence and step by step; unfold_mapping and fold_mapping are inverse; a run over several sequences is the per-sequence "
+     "runs in turn; the result is bare iff there is a single output and no return_states, otherwise keyed by exactly the requested / output node names, arrays for one sequence and equally long lists "
+     "for several (C02_mapping_unfold_fold, C02_array_reaches_entries, C02_mapping_reaches_named, C02_step_inputs, C02_run_sequences, C02_outputs_from_named, C02_result_form; correspondence family `mapping`).")
+_app("C02", "note", " Mapping.v: check_xy's dimension checks, teacher nodes and forced feedbacks of multi-sequence runs are not in the plumbing model; name-keyed inputs of different lengths under one "
+     "sequence index are avoided by the scenarios (the code truncates or raises depending on key order - judged outside the statement). The oracle also runs run -> in-place extension -> run on one Model object.")
+_app("C03", "text", " find_parents_and_children, topological_sort and find_entries_and_exits are ALSO translated from the current text of utils/graphflow.py on every run (tools/vlib/py2coq_graph.py -> "
+     "coq/gen/Gen_graphflow.v over base/PyColl.v) and proved equal to the model: the generated topological_sort equals Graph.kahn for every fuel, hence is sound, rejects every directed cycle, "
+     "accepts every rankable graph and never raises anything but the cycle error (C03_generated_*, closed under the global context); the generated code is executed against direct calls of the real functions.")
+_app("C03", "note", "; tie (T): the translator py2coq_graph.py and base/PyColl.v (about 120 lines) as the meaning of Python set / defaultdict(list) / deque / list.remove / for / while / raise; the iteration "
+     "order of a set and the name sort are parameters assumed only to return a permutation")
+_app("C03", "technique", " + graphflow.py translated on every run and proved equal to the model (translator tie)")
+_app("C06", "text", " Unbounded since session 3 (coq/proofs/FitSem_staging_proofs.v, closed under the global context): for every topologically ordered DAG of ANY size the computed staging terminates within "
+     "the model's fuel, trains each offline node exactly once, trains offline ancestors in strictly earlier stages and runs every ancestor forward in a stage not later than its descendant's "
+     "(C06_staging_terminates, C06_staging_trains_each_once, C06_staging_respects_ancestors, C06_staging_ancestors_run); for chains of any length and any labelling of readouts (deep ESNs) the staging "
+     "has a closed form, is valid, and Model.fit equals the explicit node-by-node procedure (C06_staging_chain_closed_form, C06_staging_valid_chains, C06_fit_chains). The termination proof exposed the "
+     "open finding fit-staging:offline-and-online-node-hangs (a node with both rules makes Model.fit loop forever).")
+_app("C06", "note", " Still bounded (<= 5 nodes + per scenario): validity of the staging for general DAGs (C06_staging_valid_full_statement stays a Definition).")
+_app("C13", "text", " The dictionary / partial-application logic (Initializer.__call__, _func_post_process incl. the sr-xor-input_scaling refusal and the seed keep rule), _scale_spectral_radius, _scale_inputs "
+     "(scalar and per-column, dense and sparse branches) and the ring / line index formulas are ALSO translated from the current text of mat_gen.py on every run (tools/vlib/py2coq_mg.py -> "
+     "coq/gen/Gen_matgen.v) and proved equal to the model for every Num instance (C13_generated_*).")
+_app("C13", "note", "; tie (T): py2coq_mg.py and base/MGPrelude.v (broadcast multiplications, np.arange, np.roll by one, keyword dictionaries); format / dtype conversions and warnings are exact-text skips "
+     "listed in the generated header; _filter_deprecated_kwargs is a pinned primitive; spectral_radius, issparse and the draw are Section oracles; _random_degree / _get_rvs are not translated")
+_app("C13", "technique", " + mat_gen.py logic translated on every run and proved equal to the model (translator tie)")
+_app("C19", "text", " _check_arrays, mse, rmse, nrmse, rsquare and the matrix of effective_spectral_radius are ALSO translated from the current text of observables.py on every run (tools/vlib/py2coq_nd.py -> "
+     "coq/gen/Gen_metrics.v, one definition per array rank 1/2/3 and per dimensionwise flag, every axis= a constant) and proved equal to the model: for every Num instance at rank 1, for the shape check "
+     "and the effective matrix; over R for rectangular rank-2 / rank-3 arrays (lane-wise reduction = row-by-row accumulation) (C19_generated_*); the generated definitions are also executed at Q against the real functions.")
+_app("C19", "note", "; tie (T): py2coq_nd.py (static evaluation of the axis selection; sqrt carried as radicand / (radicand, norm) pairs) and base/NDPrelude.v as the exact-arithmetic meaning of np.mean / np.sum / "
+     ".var / np.ptp / np.quantile(linear) with axis in {None, 0, (0,1)} and of element-wise arithmetic with scalar / trailing-vector broadcasting")
+_app("C19", "technique", " + observables.py translated on every run and proved equal to the model (translator tie)")
+_app("C20", "text", " to_forecasting and one_hot_encode are ALSO translated from the current source text on every run (tools/vlib/py2coq_ds.py -> coq/gen/Gen_datasets.v over base/DSPrelude.v) and proved equal "
+     "to the models for all inputs, with no guard for to_forecasting (forecast = 0 and test_size = 0 included) and for every transitive antisymmetric label order for one_hot_encode "
+     "(C20_generated_to_forecasting*, C20_generated_one_hot, closed under the global context); the generated helpers are re-executed on every correspondence scenario.")
+_app("C20", "note", "; tie (T) for the helpers: py2coq_ds.py and base/DSPrelude.v as the meaning of Python slices with negative bounds (a[:-0] empty, a[-0:] everything), round (half to even on the exact "
+     "rational), int(), isinstance on None / int / float, np.moveaxis (axis 0 / axis 1 of a 2-D array), np.unique(return_inverse), np.eye(n)[idx], np.cumsum, np.split, reshape; the float product "
+     "time_len * test_size is taken exact")
+for _p, _what in (("C01", "one internal / external step and a whole run (run_states, run_outputs, run_final), scalar or per-unit leak, with or without feedback, for the exactly computable activations "
+                          "(identity, relu, hard-tanh, x/2: C01_Qstep_embeds_in_Rstep, C01_Qrun_embeds_in_Rrun, C01_chk_res_is_about_R_model)"),
+                  ("C04", "the Gram accumulators after any list of sequences and any warm-up, partial_backward, the ridge system and readout_forward (C04_Qaccumulators_embed, C04_Qfit_embeds, "
+                          "C04_chk_fit_is_about_R_model)"),
+                  ("C10", "one RLS step incl. the gain 1/(1+r'Pr), one LMS step with the schedule cursor, the IP step, and the whole train loop for any learn_every and any list of successive calls "
+                          "(C10_Qrls_embeds, C10_Qlms_embeds, C10_Q*_train_calls_embed, C10_chk_*_is_about_R_model)"),
+                  ("C17", "delay_step, nvar_step, the runs from the zero store, concat and the fan-in concat (C17_Qwindows_embed, C17_Qwindows_runs_embed, C17_chk_windows_are_about_R_model)")):
+    _app(_p, "text", " The R-vs-Q instance gap is closed by proof for this property (coq/base/NumHom.v, coq/proofs/QR_bridge_%s.v): Q2R is a homomorphism of the Num class (all operations, both comparisons, "
+         "total division), every LA / GenPrelude operation commutes with the entry-wise embedding, hence running the model at Q and embedding equals running it at R on the embedded data - %s; the "
+         "runner's tolerance test satisfies qclose m o = true <-> |Q2R m - Q2R o| <= 1e-9 max(1, |Q2R m|), so a verdict chk_* = true is a statement about the R-model the theorems are about." % (_p, _what))
+_app("C17", "note", " Since the Q-to-R bridge was appended, the cone of props/C17.v imports Reals: the window theorems proper are still closed under the global context, the bridge theorems carry the two Reals axioms.")
